@@ -612,13 +612,24 @@ pub fn walk_document(bytes: &[u8], opts: WalkOpts, with_scan: bool) -> Stats {
 // allocation). The child resets the peak before every document and reports `peak - level at the start`.
 
 pub struct CountingAlloc;
-static ALLOC_CUR: std::sync::atomic::AtomicUsize = std::sync::atomic::AtomicUsize::new(0);
-static ALLOC_PEAK: std::sync::atomic::AtomicUsize = std::sync::atomic::AtomicUsize::new(0);
+/// counting is switched on in walker children only: the other properties of the harness pay one relaxed load
+static ALLOC_ON: std::sync::atomic::AtomicBool = std::sync::atomic::AtomicBool::new(false);
+static ALLOC_CUR: std::sync::atomic::AtomicIsize = std::sync::atomic::AtomicIsize::new(0);
+static ALLOC_PEAK: std::sync::atomic::AtomicIsize = std::sync::atomic::AtomicIsize::new(0);
 
 #[inline]
 fn alloc_add(n: usize) {
-    let cur = ALLOC_CUR.fetch_add(n, Ordering::Relaxed) + n;
-    ALLOC_PEAK.fetch_max(cur, Ordering::Relaxed);
+    if ALLOC_ON.load(Ordering::Relaxed) {
+        let cur = ALLOC_CUR.fetch_add(n as isize, Ordering::Relaxed) + n as isize;
+        ALLOC_PEAK.fetch_max(cur, Ordering::Relaxed);
+    }
+}
+#[inline]
+fn alloc_sub(n: usize) {
+    if ALLOC_ON.load(Ordering::Relaxed) {
+        // (may go below zero for what was allocated before counting began: only differences are used)
+        ALLOC_CUR.fetch_sub(n as isize, Ordering::Relaxed);
+    }
 }
 
 unsafe impl std::alloc::GlobalAlloc for CountingAlloc {
@@ -634,12 +645,12 @@ unsafe impl std::alloc::GlobalAlloc for CountingAlloc {
     }
     unsafe fn dealloc(&self, p: *mut u8, l: std::alloc::Layout) {
         std::alloc::System.dealloc(p, l);
-        ALLOC_CUR.fetch_sub(l.size(), Ordering::Relaxed);
+        alloc_sub(l.size());
     }
     unsafe fn realloc(&self, p: *mut u8, l: std::alloc::Layout, new_size: usize) -> *mut u8 {
         let q = std::alloc::System.realloc(p, l, new_size);
         if !q.is_null() {
-            if new_size >= l.size() { alloc_add(new_size - l.size()); } else { ALLOC_CUR.fetch_sub(l.size() - new_size, Ordering::Relaxed); }
+            if new_size >= l.size() { alloc_add(new_size - l.size()); } else { alloc_sub(l.size() - new_size); }
         }
         q
     }
@@ -648,11 +659,13 @@ unsafe impl std::alloc::GlobalAlloc for CountingAlloc {
 #[global_allocator]
 static GLOBAL: CountingAlloc = CountingAlloc;
 
-/// (bytes allocated now, highest value since the last `alloc_reset_peak`)
-pub fn alloc_levels() -> (usize, usize) {
+/// (bytes allocated now, highest value since the last `alloc_reset_peak`), relative to the start of counting
+pub fn alloc_levels() -> (isize, isize) {
     (ALLOC_CUR.load(Ordering::Relaxed), ALLOC_PEAK.load(Ordering::Relaxed))
 }
-pub fn alloc_reset_peak() -> usize {
+/// switches counting on (if it is not) and restarts the peak at the current level, which is returned
+pub fn alloc_reset_peak() -> isize {
+    ALLOC_ON.store(true, Ordering::Relaxed);
     let cur = ALLOC_CUR.load(Ordering::Relaxed);
     ALLOC_PEAK.store(cur, Ordering::Relaxed);
     cur
@@ -743,7 +756,7 @@ pub fn maybe_child(replay: &Value) {
         CUR_DOC.store(-1, Ordering::SeqCst);
         let ms = t.elapsed().as_millis() as u64;
         let out = match res {
-            Ok(Ok(st)) => json!({"outcome": "returned", "ms": ms, "calls": st.calls, "peak_bytes": alloc_levels().1.saturating_sub(base), "decoded_bytes": st.decoded}),
+            Ok(Ok(st)) => json!({"outcome": "returned", "ms": ms, "calls": st.calls, "peak_bytes": (alloc_levels().1 - base).max(0) as u64, "decoded_bytes": st.decoded}),
             _ => {
                 let p = LAST_PANIC.lock().unwrap_or_else(|e| e.into_inner()).clone().unwrap_or_else(|| "panic".into());
                 json!({"outcome": "panic", "ms": ms, "panic": p})
